@@ -255,6 +255,7 @@ let call_fn (id : n) (args : value list) : fres =
   | 11, [] -> FBadCount
   | 12, [VBool bb] -> if bb then FErrS (n_of_int 2) else FOk (VStr (str_of_ascii "ok"))
   | 20, [recv] -> (match field_of recv "X" with Some x -> FOk x | None -> FPanic)
+  | (21 | 23), VPtr (_, _, None) :: _ -> FPanic   (* a value-receiver method called through a nil pointer panics in Go *)
   | 21, [_] -> FOk (VStr (str_of_ascii "hello"))
   | 22, [_] -> FOk (VStr (str_of_ascii "ptrm"))
   | 23, [_; VStr s] -> FOk (VStr (s @ s))
